@@ -9,6 +9,7 @@ CONSTANTS
   MaxOps = 3
   Faults = {"stmt"}
   AllowGap = FALSE
+  Dups = FALSE
   AllowRestart = FALSE
   AllowReorg = FALSE
   Rollups = {}
